@@ -93,7 +93,7 @@ def deformations(cls: str) -> List[Tuple[Optional[str], Optional[str]]]:
 def cfg_name(cls, size, name=None, axis=None) -> str:
     s = f'{cls}({",".join(map(str, size))})'
     if name:
-        s += f'/{name}'
+        s += '/' + name.replace(' ', '_')       # configuration strings contain no spaces
         if axis:
             s += f'/{axis}'
     return s
@@ -103,7 +103,8 @@ def parse_cfg(cfg: str):
     m = re.match(r'^(\w+)\(([\d,]+)\)(?:/([^/]+))?(?:/(\w))?$', cfg)
     if not m:
         raise ValueError(cfg)
-    return m.group(1), tuple(int(x) for x in m.group(2).split(',')), m.group(3), m.group(4)
+    name = m.group(3).replace('_', ' ') if m.group(3) else None
+    return m.group(1), tuple(int(x) for x in m.group(2).split(',')), name, m.group(4)
 
 
 def make_code(cfg: str):
